@@ -123,16 +123,14 @@ Print Assumptions C13_completion_exactly_once_impl_refuted.
 
 (* One send, one response for its id and the event, as three goroutines: over ALL 1260 interleavings
    of their 3+4+2 atomic steps (Spec) the consumer ran at most once and the completion at most
-   once; schedules in which both happened exist. *)
+   once; schedules in which both happened exist.
+   (Proofs.C13.nv_threads Spec = [send_thread 0 (CPlain 1) [1]; response_thread Spec 1 1 (Some []);
+   fire_thread Spec 2]; Proofs.C13.nv_check = forallb over Base.Conc.outcomes from init true 3 of
+   count_cons 1 <=? 1, count_completion <=? 1, count_reg 1 =? 1, count_fire =? 1, an existsb of both
+   = 1, and length = 1260.  Stated through the constants so that re-checking this file does not
+   re-evaluate them.) *)
 Example C13_nonvacuous_all_schedules :
-  let ts : list (@thread state event) :=
-    [send_thread 0 (CPlain 1) [1%N]; response_thread Spec 1 1 (Some []); fire_thread Spec 2] in
-  (forall a, In a (concat ts) -> is_action Spec a) /\
-  let outs_ := outcomes ts (init true 3) in
-  forallb (fun r => (count_cons 1 (events r) <=? 1) && (count_completion (events r) <=? 1)
-                    && (count_reg 1 (events r) =? 1) && (count_fire (events r) =? 1)) outs_
-  && existsb (fun r => (count_cons 1 (events r) =? 1) && (count_completion (events r) =? 1)) outs_
-  && (length outs_ =? 1260) = true.
+  (forall a, In a (concat (nv_threads Spec)) -> is_action Spec a) /\ nv_check = true.
 Proof. exact (conj (nv_threads_actions Spec) nv_check_ok). Qed.
 
 (* An admissible history with a consumer that sends two more messages, a relayed backend message, a
